@@ -81,6 +81,8 @@ func handle(line []byte) (resp []byte) {
 	switch req.Kind {
 	case "graph":
 		return exec.Marshal(exec.Graph(&req))
+	case "label":
+		return exec.Marshal(exec.Label(&req))
 	case "prog":
 		return exec.Marshal(exec.Prog(&req))
 	}
